@@ -89,6 +89,11 @@ if __name__ == "__main__":
                   "src": 'out int kind = 0;\nparser {\n  case {\n    "a" -> { kind = 1; }\n    else -> { kind = 2; "x"; }\n    else -> { kind = 3; "y"; }\n  }\n  ";";\n}\n'})
     progs.append({"name": "two-else-greedy", "args": ["-feof-support"], "feats": {}, "also_O3": False, "must_reject": "two else clauses",
                   "src": 'out int kind = 0;\nparser {\n  greedy case {\n    "a" -> { kind = 1; }\n    else -> { kind = 2; "x"; }\n    else -> { kind = 3; "y"; }\n  }\n  ";";\n}\n'})
+    # a clause that can never be selected (its literal is subsumed by a pattern of higher priority): its body runs nowhere
+    progs.append({"name": "dead-clause-greedy", "args": ["-feof-support"], "feats": {}, "also_O3": True,
+                  "src": 'out int k = 0;\nout int id = 0;\nparser {\n  greedy case {\n    "if" -> { "X"; k = 1; }\n    prio 1 {\n      /[a-z]+/ -> { "!"; id = 1; }\n    }\n  }\n}\n'})
+    progs.append({"name": "dead-clause-greedy-2", "args": ["-feof-support"], "feats": {}, "also_O3": False,
+                  "src": 'out int k = 0;\nhook h0;\nparser {\n  loop {\n    greedy case {\n      prio 2 { /[a-z0-9]+/ -> { ";"; k = [k + 1]; } }\n      "end", "if" -> { "?"; h0(); }\n      "." -> { break; }\n    }\n  }\n}\n'})
     progs.append({"name": "known-greedy-prefix-hook", "args": ["-feof-support"], "feats": {}, "also_O3": False,
                   "known_key": "greedy-prefix-clause-hook-runs-early",
                   "known_what": "in a greedy case a clause body of nothing but hook calls runs as soon as its pattern is complete, although a longer pattern of another clause goes on to match (both clauses' hooks run on 'abc')",
